@@ -29,7 +29,7 @@ ASSUMPTIONS = [
     'well-formed topologies only: no node is at once a leaf target and a '
     'branch of another target (such combinations are skipped and counted)',
     'accumulate updater (default) so that colliding updates commute']
-BOUNDS = {'quick': '2 ports x {dict port, scalar port, _path dictionary port '
+BOUNDS = {'quick': '3 ports (process at the root) or 2 ports (process two levels down) x {dict port, scalar port, _path dictionary port '
                    'with a renamed variable, glob port} x 7 wirings over '
                    '{A,B,inner,up,..}, process at depth 0 or 2, values in [-9,9]',
           'thorough': '3 ports, same kinds and wirings, process depth 0..2'}
@@ -64,7 +64,7 @@ def jobs(tier):
     for depth in ((0, 2) if q else (0, 1, 2)):
         for k0 in range(len(KINDS)):
             out.append(dict(name='d%d-%s' % (depth, KINDS[k0]), depth=depth,
-                            k0=k0, nports=2 if q else 3,
+                            k0=k0, nports=3 if (not q or depth == 0) else 2,
                             budget_s=100 if q else 1500,
                             crosscheck=0 if q else 20))
     return out
